@@ -34,6 +34,10 @@ deriving Repr, BEq, DecidableEq
 
 abbrev R := Except Err
 
+/-- `throw` at the fixed type `R α` (monomorphic, so that the verification condition generator of
+    DracoProofs can be given one specification for it) -/
+@[inline] def raise {α : Type} (e : Err) : R α := Except.error e
+
 @[inline] def rd (site : String) (a : Array Nat) (i : Nat) : R Nat :=
   if h : i < a.size then pure a[i] else throw (.ub site)
 
